@@ -263,9 +263,15 @@ func cmdCheck(args []string) int {
 	}
 
 	var jobs []Job
+	nSkipped := 0
 	hspecOf := map[string]HarnessSpec{}
 	for _, h := range spec.Harnesses {
 		if w.pkgs[h.Pkg] == nil || w.pkgs[h.Pkg].Func(h.Name) == nil {
+			if len(excludedHarness) > 0 {
+				fmt.Printf("UNDISCHARGED property=%s count=1 reason=harness %s is left out: its source file does not compile against this tree\n", prop, h.Name)
+				nSkipped++
+				continue
+			}
 			fmt.Fprintln(os.Stderr, "BROKEN: harness missing:", h.Name)
 			return 2
 		}
@@ -290,6 +296,10 @@ func cmdCheck(args []string) int {
 			}
 			jobs = append(jobs, Job{Pkg: h.Pkg, Harness: h.Name, Cfg: h.CfgBase + c, Params: p})
 		}
+	}
+	if len(jobs) == 0 {
+		fmt.Printf("BROKEN property=%s: none of its harnesses compiles against this tree\n", prop)
+		return 2
 	}
 	timeout := 10000
 	if tier == "thorough" {
@@ -353,6 +363,9 @@ func cmdCheck(args []string) int {
 
 	// vacuity guards
 	for _, h := range spec.Harnesses {
+		if w.pkgs[h.Pkg] == nil || w.pkgs[h.Pkg].Func(h.Name) == nil {
+			continue
+		}
 		for _, c := range h.Covers {
 			if total.Covers[c] == 0 {
 				fmt.Printf("BROKEN property=%s: mandatory cover point %q of %s never reached (vacuous harness)\n", prop, c, h.Name)
@@ -412,7 +425,7 @@ func cmdCheck(args []string) int {
 					violSamples = append(violSamples, map[string]any{"harness": o.Harness, "msg": o.Msg, "pos": o.Pos, "inputs": o.Model})
 				}
 			} else {
-				fmt.Printf("SPURIOUS property=%s harness=%s msg=%q (model did not reproduce natively: %s stopped=%q)\n", prop, o.Harness, o.Msg, r.Status, r.Stopped)
+				fmt.Printf("SPURIOUS property=%s harness=%s cfg=%d msg=%q (model did not reproduce natively: %s stopped=%q) inputs=%s\n", prop, o.Harness, o.Cfg, o.Msg, r.Status, r.Stopped, vecString(o.Model))
 				nSpurious++
 				os.Remove(f)
 			}
@@ -577,4 +590,42 @@ func vecString(v []ReplayVal) string {
 		return string(b[:600]) + "…"
 	}
 	return string(b)
+}
+
+
+// cmdReplay re-runs one recorded counterexample natively against the current
+// tree: exit 1 (and a VIOLATION line) if it still reproduces, 0 otherwise.
+func cmdReplay(args []string) int {
+	if len(args) < 2 {
+		fmt.Fprintln(os.Stderr, "usage: ruxsym replay <property> <replay.json>")
+		return 2
+	}
+	prop, file := args[0], args[1]
+	data, err := os.ReadFile(file)
+	if err != nil {
+		fmt.Fprintln(os.Stderr, err)
+		return 2
+	}
+	var rs replaySpec
+	if err := json.Unmarshal(data, &rs); err != nil {
+		fmt.Fprintln(os.Stderr, err)
+		return 2
+	}
+	if spec, ok := propSpecs[prop]; ok {
+		replayRace = spec.Race
+	}
+	abs, _ := filepath.Abs(file)
+	res, out, err := nativeReplay(rs.Package, []string{abs})
+	if err != nil {
+		fmt.Fprintln(os.Stderr, "replay failed:", err)
+		fmt.Fprintln(os.Stderr, out)
+		return 2
+	}
+	r := res[abs]
+	fmt.Printf("replay %s: harness=%s cfg=%d expect=%q -> %s stopped=%q failures=%q\n", filepath.Base(file), rs.Harness, rs.Cfg, rs.Expect, r.Status, r.Stopped, r.Failures)
+	if r.Status == "REPRODUCED" {
+		fmt.Printf("VIOLATION property=%s replay=%s\n", prop, abs)
+		return 1
+	}
+	return 0
 }
